@@ -850,6 +850,8 @@ Hdupdd(int32  file_id, /* IN: File ID the tag/refs are in */
     file_rec = HAatom_object(file_id);
     if (BADFREC(file_rec))
         HGOTO_ERROR(DFE_ARGS, FAIL);
+    if (!(file_rec->access & DFACC_WRITE))
+        HGOTO_ERROR(DFE_DENIED, FAIL);
 
     /* Attach to the old DD in the file */
     if ((old_dd = HTPselect(file_rec, old_tag, old_ref)) == FAIL)
@@ -1164,6 +1166,8 @@ HDreuse_tagref(int32  file_id, /* IN: id of file */
     file_rec = HAatom_object(file_id);
     if (BADFREC(file_rec) || tag == DFTAG_WILDCARD || ref == DFREF_WILDCARD)
         HGOTO_ERROR(DFE_ARGS, FAIL);
+    if (!(file_rec->access & DFACC_WRITE))
+        HGOTO_ERROR(DFE_DENIED, FAIL);
 
     /* look for the dd to reuse */
     if ((ddid = HTPselect(file_rec, tag, ref)) == FAIL)
@@ -1223,6 +1227,8 @@ Hdeldd(int32 file_id, uint16 tag, uint16 ref)
     file_rec = HAatom_object(file_id);
     if (BADFREC(file_rec) || tag == DFTAG_WILDCARD || ref == DFREF_WILDCARD)
         HGOTO_ERROR(DFE_ARGS, FAIL);
+    if (!(file_rec->access & DFACC_WRITE))
+        HGOTO_ERROR(DFE_DENIED, FAIL);
 
     /* look for the dd to delete */
     if ((ddid = HTPselect(file_rec, tag, ref)) == FAIL)
